@@ -20,6 +20,8 @@ import (
 	"github.com/tendermint/tendermint/consensus"
 	"github.com/tendermint/tendermint/crypto"
 	"github.com/tendermint/tendermint/crypto/ed25519"
+	"github.com/tendermint/tendermint/crypto/tmhash"
+	"github.com/tendermint/tendermint/evidence"
 	"github.com/tendermint/tendermint/libs/log"
 	mempl "github.com/tendermint/tendermint/mempool/mock"
 	tmproto "github.com/tendermint/tendermint/proto/tendermint/types"
@@ -43,7 +45,7 @@ func TestSim(t *testing.T) { simcore.Main(t, harness) }
 
 var harness = &simcore.Harness{
 	Name:   "storesim",
-	Props:  []string{"C18", "C08"},
+	Props:  []string{"C18", "C08", "C11"},
 	Config: genConfig,
 	New:    newSim,
 	MaxOps: 400,
@@ -51,10 +53,11 @@ var harness = &simcore.Harness{
 	RunTimeout: 15 * time.Minute,
 	Real: []string{"store.BlockStore (SaveBlock, PruneBlocks, all Load*)", "state.Store (Save, SaveABCIResponses, PruneStates, LoadValidators, LoadConsensusParams, LoadABCIResponses)",
 		"state.BlockExecutor.ApplyBlock incl. validateBlock and updateState", "consensus.Handshaker (replay of the last block with the real or the mock application after a crash)",
+		"evidence.Pool (in a share of runs: NewPool on a crashable evidence DB, AddEvidence, CheckEvidence via BlockExecutor.ValidateBlock, Update inside ApplyBlock, PendingEvidence) with genuine duplicate-vote evidence in the decided blocks",
 		"proxy.AppConns with local ABCI clients", "types.ValidatorSet (UpdateWithChangeSet, IncrementProposerPriority, proto round trip)", "types.Block / PartSet / Commit / VoteSet (block and commit construction)"},
 	Stub: []string{"consensus.State: blocks are decided by the simulator (valid blocks signed by the known validator keys); a decided block that was lost in a crash is saved again after the restart, as WAL replay would",
 		"databases: simdisk.CrashDB (writes applied in order, batches atomic, *Sync makes everything written so far durable, a crash keeps the durable image plus a prefix of the unsynced write groups of each database independently)",
-		"application: simapp.RecApp (state durable as of its last Commit)", "mempool, evidence pool, event bus: no-op"},
+		"application: simapp.RecApp (state durable as of its last Commit)", "mempool, event bus: no-op; evidence pool: no-op unless the run has evpool=true; evidence reactor / gossip: none (evidence is added by the simulator)"},
 	Assumptions: []string{"crash model per database: prefix of unsynced write groups survives; the two databases are independent files",
 		"the node prunes in the order of consensus.State.pruneBlocks: block store, then state store, skipped when retain <= base",
 		"proposer reference: integer division truncates, 1.125*P = P + P/8, scale = ceil(diff/(2P)), the rounding of the centring average is left open (comparison modulo one uniform shift <= 1), ties to the lowest address, new-validator penalty uses the total before the removals of the same batch",
@@ -111,6 +114,12 @@ func genConfig(rng *simcore.RNG, env *simcore.Env) simcore.Op {
 			c["prune"] = 30
 		}
 	}
+	// a real evidence pool behind the executor; decided blocks carry duplicate-vote evidence
+	c["evpool"] = rng.Bool(0.4)
+	c["evrate"] = []int{10, 25, 50}[rng.Intn(3)]
+	if env.Prop == "C11" {
+		c["evpool"], c["evrate"], c["crash"], c["sweep"] = true, 50, true, true
+	}
 	// the application answers InitChain with its own validator set (>= 2 members among the
 	// keys the simulator holds, different from the genesis document) and possibly parameters
 	c["initvals"] = []int{}
@@ -160,12 +169,15 @@ type blk struct {
 	seen  *types.Commit
 	id    types.BlockID
 	txs   []string
+	ev    []types.Evidence
 }
 
 // node is one incarnation of the storage side of a node.
 type node struct {
 	ctl      *simdisk.Ctl
 	bdb, sdb *simdisk.CrashDB
+	edb      *simdisk.CrashDB // evidence database (always there, used when the run has a real pool)
+	pool     *evidence.Pool   // nil = no-op evidence pool
 	bs       *store.BlockStore
 	ss       sm.Store
 	proxy    proxy.AppConns
@@ -210,6 +222,7 @@ type sim struct {
 
 	classMemo map[string]string
 	created   map[int64][]string // block-db keys that did not exist before the save of height h
+	evMode    map[int64]string   // how the evidence-carrying block h was applied: "direct" (ApplyBlock) or "handshake"
 	leakFloor int64              // heights up to here may have left garbage behind (interrupted prune)
 	pruneCtx  *pruneCtx          // the prune during which the current incarnation crashed
 	baseHole  int64              // base height found deleted (known-finding class), until a later prune moves the base
@@ -233,7 +246,7 @@ func key(i int) crypto.PrivKey {
 func newSim(env *simcore.Env, cfg simcore.Op) simcore.Sim {
 	s := &sim{env: env, cfg: cfg, chainID: "storesim-chain", init: cfg.Int64("init"), partSize: uint32(cfg.Int("part")),
 		blocks: map[int64]*blk{}, vals: map[int64]*types.ValidatorSet{}, params: map[int64]tmproto.ConsensusParams{}, paramTouched: map[int64]bool{},
-		lastPoints: map[string]int{"block": 30, "prune": 6}, opsLeft: cfg.Int("nops"), classMemo: map[string]string{}, created: map[int64][]string{}}
+		lastPoints: map[string]int{"block": 30, "prune": 6}, opsLeft: cfg.Int("nops"), classMemo: map[string]string{}, created: map[int64][]string{}, evMode: map[int64]string{}}
 	if s.init <= 0 {
 		s.init = 1
 	}
@@ -248,7 +261,7 @@ func newSim(env *simcore.Env, cfg simcore.Op) simcore.Sim {
 		powers = []int64{10}
 	}
 	ctl := &simdisk.Ctl{}
-	n := &node{ctl: ctl, bdb: simdisk.NewCrashDB("block", nil, ctl), sdb: simdisk.NewCrashDB("state", nil, ctl)}
+	n := &node{ctl: ctl, bdb: simdisk.NewCrashDB("block", nil, ctl), sdb: simdisk.NewCrashDB("state", nil, ctl), edb: simdisk.NewCrashDB("evidence", nil, ctl)}
 	// what the chain starts with: the genesis validators, unless the application replaces them
 	// in its answer to InitChain
 	app := simapp.NewRecApp(cfg.Int("hashlen"))
@@ -298,6 +311,7 @@ func newSim(env *simcore.Env, cfg simcore.Op) simcore.Sim {
 	}
 	s.kc, s.app, s.genDoc = c, c.App, c.GenDoc
 	n.bs, n.ss, n.proxy, n.exec, n.state = c.BlockStore, c.StateStore, c.ProxyApp, c.Exec, c.State
+	n.mkExec(s)
 	s.live = n
 	s.tip = s.init - 1
 	s.lastState = c.State.Copy()
@@ -417,6 +431,11 @@ func (s *sim) Next(rng *simcore.RNG) simcore.Op {
 			w[4], w[5] = 0, 0
 		}
 	}
+	if s.decided != nil {
+		// a decided block is outstanding (lost in a crash): the restarted node saves it again
+		// before it does anything else to its stores
+		w[1], w[3], w[5] = 0, 0, 0
+	}
 	switch rng.Weighted(w) {
 	case 0:
 		return s.genBlock(rng, simcore.Op{"a": "block"})
@@ -445,7 +464,7 @@ func (s *sim) Next(rng *simcore.RNG) simcore.Op {
 
 func (s *sim) genCrash(rng *simcore.RNG, op simcore.Op, kind string) simcore.Op {
 	op["k"] = rng.Range(1, s.lastPoints[kind]+1)
-	for _, f := range []string{"keepb", "keeps"} {
+	for _, f := range []string{"keepb", "keeps", "keepe"} {
 		switch rng.Intn(4) {
 		case 0:
 			op[f] = 0
@@ -510,6 +529,13 @@ func (s *sim) genBlock(rng *simcore.RNG, op simcore.Op) simcore.Op {
 		}
 	}
 	op["absent"], op["nilv"], op["labsent"] = ab, nl, lab
+	if s.cfg.Bool("evpool") && s.tip >= s.init && rng.Intn(100) < s.cfg.Int("evrate") {
+		var evs []simcore.Op
+		for j, nj := 0, rng.Range(1, 2); j < nj; j++ {
+			evs = append(evs, simcore.Op{"age": rng.Intn(12), "vi": rng.Intn(4)})
+		}
+		op["ev"] = evs
+	}
 	return op
 }
 
@@ -637,18 +663,21 @@ func (s *sim) Apply(op simcore.Op) bool {
 		}
 		s.audit(s.live, "after grow", auditOpts{full: true, post: true})
 	case "prune":
+		if s.decided != nil {
+			return false
+		}
 		s.doPrune(s.live, op.Int64("retain"), true)
 		s.audit(s.live, "after prune", auditOpts{full: true, post: true})
 		s.gc()
 	case "restart":
-		s.restart(s.live.bdb.Image(-1), s.live.sdb.Image(-1), "clean restart")
+		s.restart(s.live.image(-1, -1, -1), "clean restart")
 	case "crash":
 		kind := op.Str("on")
 		if kind != "block" && kind != "prune" {
 			return false
 		}
 		k := op.Int("k")
-		if k < 1 {
+		if k < 1 || (kind == "prune" && s.decided != nil) {
 			return false
 		}
 		n := s.live
@@ -663,17 +692,17 @@ func (s *sim) Apply(op simcore.Op) bool {
 		}
 		s.crashes++
 		e.Count("fault.crash_in_" + kind)
-		ub, us := n.bdb.Unsynced(), n.sdb.Unsynced()
-		kb, ks := ub*op.Int("keepb")/1000, us*op.Int("keeps")/1000
-		if ub+us > 0 {
+		ub, us, ue := n.bdb.Unsynced(), n.sdb.Unsynced(), n.edb.Unsynced()
+		kb, ks, ke := ub*op.Int("keepb")/1000, us*op.Int("keeps")/1000, ue*op.Int("keepe")/1000
+		if ub+us+ue > 0 {
 			e.Count("fault.crash_with_unsynced_writes")
-			if (kb > 0 && kb < ub) || (ks > 0 && ks < us) {
+			if (kb > 0 && kb < ub) || (ks > 0 && ks < us) || (ke > 0 && ke < ue) {
 				e.Count("fault.crash_partial_unsynced_prefix")
 			}
 		}
-		e.Logf("crash at point %d (%s) unsynced block=%d state=%d kept %d/%d", k, label, ub, us, kb, ks)
+		e.Logf("crash at point %d (%s) unsynced block=%d state=%d evidence=%d kept %d/%d/%d", k, label, ub, us, ue, kb, ks, ke)
 		s.app.Crash()
-		s.restart(n.bdb.Image(kb), n.sdb.Image(ks), fmt.Sprintf("crash in %s at point %d (%s), kept %d/%d block-db and %d/%d state-db unsynced write groups", kind, k, label, kb, ub, ks, us))
+		s.restart(n.image(kb, ks, ke), fmt.Sprintf("crash in %s at point %d (%s), kept %d/%d block-db, %d/%d state-db and %d/%d evidence-db unsynced write groups", kind, k, label, kb, ub, ks, us, ke, ue))
 		if kind == "prune" {
 			// A prune interrupted after the base moved never deletes the rest of its batch: later
 			// prunes start at the new base. Not part of the property (the reported range is
@@ -689,7 +718,7 @@ func (s *sim) Apply(op simcore.Op) bool {
 		s.gc()
 	case "sweep":
 		kind := op.Str("on")
-		if kind != "block" && kind != "prune" {
+		if (kind != "block" && kind != "prune") || (kind == "prune" && s.decided != nil) {
 			return false
 		}
 		s.sweep(kind, op)
@@ -795,6 +824,57 @@ func (s *sim) signCommit(vals *types.ValidatorSet, id types.BlockID, h int64, ro
 	return types.NewCommit(h, round, id, sigs)
 }
 
+// makeEvidence builds genuine duplicate-vote evidence for the block at height h: two
+// conflicting precommits of one validator of an earlier retained height, signed with its
+// key, and hands each to the pool (as gossip would) before the block is assembled.
+func (s *sim) makeEvidence(n *node, h int64, specs []simcore.Op) []types.Evidence {
+	if n.pool == nil || len(specs) > 4 {
+		return nil
+	}
+	var out []types.Evidence
+	used := map[string]bool{}
+	for j, sp := range specs {
+		eh := s.tip - int64(sp.Int("age"))
+		if sp.Int("age") < 0 || eh < s.init || eh < n.bs.Base() || s.blocks[eh] == nil || s.vals[eh] == nil {
+			continue
+		}
+		vals := s.vals[eh]
+		vi := sp.Int("vi")
+		if vi < 0 {
+			continue
+		}
+		v := vals.Validators[vi%len(vals.Validators)]
+		k, ok := s.kc.Keys[string(v.Address)]
+		if !ok || used[fmt.Sprint(eh, v.Address)] {
+			continue
+		}
+		used[fmt.Sprint(eh, v.Address)] = true
+		mk := func(tag string) *types.Vote {
+			hash := tmhash.Sum([]byte(fmt.Sprintf("storesim-ev-%s-%d-%d", tag, h, j)))
+			vote := &types.Vote{Type: tmproto.PrecommitType, Height: eh, Round: 0,
+				BlockID:   types.BlockID{Hash: hash, PartSetHeader: types.PartSetHeader{Total: 1, Hash: hash}},
+				Timestamp: s.blocks[eh].block.Time, ValidatorAddress: v.Address, ValidatorIndex: int32(vi % len(vals.Validators))}
+			sig, err := k.Sign(types.VoteSignBytes(s.chainID, vote.ToProto()))
+			if err != nil {
+				panic(err)
+			}
+			vote.Signature = sig
+			return vote
+		}
+		ev := types.NewDuplicateVoteEvidence(mk("a"), mk("b"), s.blocks[eh].block.Time, vals)
+		if ev == nil {
+			continue
+		}
+		if err := n.pool.AddEvidence(ev); err != nil {
+			s.env.Fail("C11", "genuine-evidence-rejected", "duplicate-vote evidence of validator %X at retained height %d (store [%d,%d]) was not admitted: %v", v.Address, eh, n.bs.Base(), n.bs.Height(), err)
+			continue
+		}
+		out = append(out, ev)
+		s.env.Count("probe.evidence_in_block")
+	}
+	return out
+}
+
 func (s *sim) buildBlock(n *node, op simcore.Op) *blk {
 	st := n.state
 	h := s.tip + 1
@@ -822,7 +902,8 @@ func (s *sim) buildBlock(n *node, op simcore.Op) *blk {
 		txs = append(txs, types.Tx(t))
 		stxs = append(stxs, t)
 	}
-	block, _ := st.MakeBlock(h, txs, last, nil, proposer.Address)
+	evs := s.makeEvidence(n, h, op.Subs("ev"))
+	block, _ := st.MakeBlock(h, txs, last, evs, proposer.Address)
 	parts := block.MakePartSet(s.partSize)
 	id := types.BlockID{Hash: block.Hash(), PartSetHeader: parts.Header()}
 	ab, nl := present(st.Validators, op.Ints("absent"), op.Ints("nilv"))
@@ -830,7 +911,7 @@ func (s *sim) buildBlock(n *node, op simcore.Op) *blk {
 	if parts.Total() > 1 {
 		s.env.Count("probe.multi_part_block")
 	}
-	return &blk{h: h, block: block, parts: parts, seen: seen, id: id, txs: stxs}
+	return &blk{h: h, block: block, parts: parts, seen: seen, id: id, txs: stxs, ev: evs}
 }
 
 func (s *sim) doBlock(n *node, op simcore.Op) {
@@ -851,6 +932,10 @@ func (s *sim) doBlock(n *node, op simcore.Op) {
 			}
 		}
 	}
+	// as consensus does before it commits: full validation, which includes the evidence check
+	if err := n.exec.ValidateBlock(n.state, b.block); err != nil {
+		panic(fmt.Sprintf("storesim: ValidateBlock(%d): %v", h, err))
+	}
 	n.bs.SaveBlock(b.block, b.parts, b.seen)
 	if n.bdb.Trace != nil {
 		n.bdb.Trace = nil
@@ -862,7 +947,94 @@ func (s *sim) doBlock(n *node, op simcore.Op) {
 		panic(fmt.Sprintf("storesim: ApplyBlock(%d): %v", h, err))
 	}
 	n.state = newState
+	if len(b.ev) > 0 {
+		s.evMode[h] = "direct"
+	}
 	s.commitBlock(b, prev, newState)
+	if len(b.ev) > 0 && n.pool != nil && s.env.Checking("C11") {
+		// right after a block is applied its evidence is committed: not pending, and not accepted again
+		pend, _ := n.pool.PendingEvidence(-1)
+		for _, ev := range b.ev {
+			for _, p := range pend {
+				if bytes.Equal(p.Hash(), ev.Hash()) {
+					s.env.Fail("C11", "committed-evidence-still-pending", "evidence %X committed in block %d is still pending after ApplyBlock returned", ev.Hash(), h)
+				}
+			}
+			if err := n.pool.CheckEvidence(types.EvidenceList{ev}); err == nil {
+				s.env.Fail("C11", "committed-evidence-accepted-again", "evidence %X committed in block %d passes CheckEvidence again after ApplyBlock returned", ev.Hash(), h)
+			}
+		}
+	}
+}
+
+// checkEvidence runs after every restart, on the pool recreated from the surviving evidence
+// database: evidence contained in a block the state says is applied has been committed, so it
+// must not be pending and a block carrying it again must be refused. The acceptance test is
+// made on a throw-away pool over a copy of the evidence database (CheckEvidence writes).
+func (s *sim) checkEvidence(n *node, ctx string) {
+	e := s.env
+	if n.pool == nil || !e.Checking("C11") {
+		return
+	}
+	stH := n.state.LastBlockHeight
+	pend, _ := n.pool.PendingEvidence(-1)
+	isPending := func(ev types.Evidence) bool {
+		for _, p := range pend {
+			if bytes.Equal(p.Hash(), ev.Hash()) {
+				return true
+			}
+		}
+		return false
+	}
+	var probe *evidence.Pool
+	var hs []int64
+	for h := range s.evMode {
+		hs = append(hs, h)
+	}
+	sort.Slice(hs, func(i, j int) bool { return hs[i] < hs[j] })
+	for _, h := range hs {
+		b := s.blocks[h]
+		if b == nil || h > stH || h < n.bs.Base() {
+			continue
+		}
+		for _, ev := range b.ev {
+			pending := isPending(ev)
+			if probe == nil {
+				var err error
+				probe, err = evidence.NewPool(simdisk.NewCrashDB("evidence-probe", n.edb.Image(-1), &simdisk.Ctl{}), n.ss, n.bs)
+				if err != nil {
+					panic(err)
+				}
+			}
+			err := probe.CheckEvidence(types.EvidenceList{ev})
+			if !pending && err != nil {
+				continue // refused (committed, or no longer verifiable after pruning)
+			}
+			e.Count("probe.committed_evidence_not_marked_after_restart")
+			what := "is neither pending nor marked committed"
+			if pending {
+				what = "is still pending"
+			}
+			acc := "and a block carrying it again would be refused only for another reason: " + fmt.Sprint(err)
+			if err == nil {
+				acc = "and CheckEvidence accepts it in a block again"
+			}
+			if s.evMode[h] == "handshake" {
+				// the handshake replays the block with a no-op evidence pool: listed known findings
+				sig := "committed-still-pending-after-apply-crash"
+				if !pending {
+					sig = "evidence-in-two-blocks-after-apply-crash"
+				}
+				e.Fail("C11", sig, "%s: evidence %X of block %d (applied by the handshake replay) %s %s", ctx, ev.Hash(), h, what, acc)
+				continue
+			}
+			sig := "committed-evidence-still-pending-after-crash"
+			if !pending {
+				sig = "committed-evidence-not-marked-after-crash"
+			}
+			e.Fail("C11", sig, "%s: the state is at height %d and block %d was applied by the node's own ApplyBlock (never replayed), but its evidence %X %s %s", ctx, stH, h, ev.Hash(), what, acc)
+		}
+	}
 }
 
 func expectParams(p tmproto.ConsensusParams, txs []string) (tmproto.ConsensusParams, bool) {
@@ -1122,11 +1294,21 @@ func (s *sim) withCrash(n *node, k int, f func()) (crashed bool, points int, lab
 	return false, n.ctl.Points() - p0, ""
 }
 
+// images are the durable contents of the three databases of a node.
+type images struct{ b, s, e map[string][]byte }
+
+// image returns what a crash leaves that preserved the given numbers of unsynced write
+// groups per database (negative: all).
+func (n *node) image(kb, ks, ke int) images {
+	return images{b: n.bdb.Image(kb), s: n.sdb.Image(ks), e: n.edb.Image(ke)}
+}
+
 // open builds stores on the given durable images, without handshake.
-func (s *sim) open(imgB, imgS map[string][]byte, ctx string) *node {
+func (s *sim) open(img images, ctx string) *node {
 	n := &node{ctl: &simdisk.Ctl{}}
-	n.bdb = simdisk.NewCrashDB("block", imgB, n.ctl)
-	n.sdb = simdisk.NewCrashDB("state", imgS, n.ctl)
+	n.bdb = simdisk.NewCrashDB("block", img.b, n.ctl)
+	n.sdb = simdisk.NewCrashDB("state", img.s, n.ctl)
+	n.edb = simdisk.NewCrashDB("evidence", img.e, n.ctl)
 	func() {
 		defer func() {
 			if r := recover(); r != nil {
@@ -1145,8 +1327,24 @@ func (n *node) connect(s *sim, st sm.State) {
 	if err := n.proxy.Start(); err != nil {
 		panic(err)
 	}
-	n.exec = sm.NewBlockExecutor(n.ss, nopLogger, n.proxy.Consensus(), mempl.Mempool{}, sm.EmptyEvidencePool{})
 	n.state = st
+	n.mkExec(s)
+}
+
+// mkExec creates the block executor and, when the run has one, the evidence pool on the
+// node's evidence database (as node.NewNode does: after the handshake, from the saved state).
+func (n *node) mkExec(s *sim) {
+	var evp sm.EvidencePool = sm.EmptyEvidencePool{}
+	n.pool = nil
+	if s.cfg.Bool("evpool") {
+		pool, err := evidence.NewPool(n.edb, n.ss, n.bs)
+		if err != nil {
+			s.env.Fail("C11", "pool-reopen-failed", "the evidence pool cannot be created on the surviving evidence database: %v", err)
+			return
+		}
+		n.pool, evp = pool, pool
+	}
+	n.exec = sm.NewBlockExecutor(n.ss, nopLogger, n.proxy.Consensus(), mempl.Mempool{}, evp)
 }
 
 // boot does what a starting node does with its stores: load the state, handshake with the
@@ -1160,6 +1358,7 @@ func (s *sim) boot(n *node, ctx string) {
 		e.Fail("C18", "state-load", "%s: %v", ctx, err)
 	}
 	n.connect(s, st)
+	stBefore := st.LastBlockHeight
 	replayed := false
 	func() {
 		defer func() {
@@ -1185,14 +1384,24 @@ func (s *sim) boot(n *node, ctx string) {
 		e.Fail("C18", "state-load", "%s: %v", ctx, err)
 	}
 	n.state = st
+	n.mkExec(s) // the evidence pool starts from the state after the handshake
 	H := n.bs.Height()
 	if H == 0 {
 		H = s.init - 1
 	}
 	switch {
 	case s.decided != nil && H == s.decided.h && H == s.tip+1:
-		// the block reached the store before the crash; the handshake executed it
+		// the block reached the store before the crash; either the node's own ApplyBlock got
+		// as far as saving the state, or the handshake executed the block now
 		e.Count("probe.block_survived_crash")
+		mode := "direct"
+		if stBefore < H {
+			mode = "handshake"
+		}
+		if len(s.decided.ev) > 0 {
+			s.evMode[H] = mode
+			e.Count("probe.evidence_block_survived_crash_" + mode)
+		}
 		s.commitBlock(s.decided, s.lastState, st)
 	case H == s.tip:
 		if !bytes.Equal(st.Bytes(), s.lastState.Bytes()) {
@@ -1208,13 +1417,14 @@ func (s *sim) boot(n *node, ctx string) {
 	}
 	// nothing was written since the first audit unless the handshake replayed a block
 	s.audit(n, ctx+", after the handshake", auditOpts{full: true, post: true, stateOnly: !replayed})
+	s.checkEvidence(n, ctx)
 }
 
 // restart replaces the live node by a new incarnation on the given images.
-func (s *sim) restart(imgB, imgS map[string][]byte, ctx string) {
+func (s *sim) restart(img images, ctx string) {
 	s.live.ctl.Kill()
 	s.live.stop()
-	n := s.open(imgB, imgS, ctx)
+	n := s.open(img, ctx)
 	s.live = n
 	s.boot(n, ctx)
 }
@@ -1236,6 +1446,7 @@ func (s *sim) rewind(m modelMark) {
 		delete(s.vals, h+2)
 		delete(s.params, h+1)
 		delete(s.paramTouched, h+1)
+		delete(s.evMode, h)
 	}
 	s.tip, s.decided, s.lastState, s.appVals = m.tip, m.decided, m.lastState, m.appVals
 }
@@ -1246,7 +1457,7 @@ func (s *sim) rewind(m modelMark) {
 // live node is not touched.
 func (s *sim) sweep(kind string, op simcore.Op) {
 	e := s.env
-	imgB0, imgS0 := s.live.bdb.Image(-1), s.live.sdb.Image(-1)
+	img0 := s.live.image(-1, -1, -1)
 	if s.live.bdb.Unsynced()+s.live.sdb.Unsynced() != 0 {
 		e.Count("probe.unsynced_at_op_boundary")
 	}
@@ -1257,7 +1468,7 @@ func (s *sim) sweep(kind string, op simcore.Op) {
 	all := op.Str("keeps") == "all" || e.Thorough()
 	for k := 1; k < 100000; k++ {
 		s.app.Restore(snap0)
-		n := s.open(imgB0, imgS0, "sweep")
+		n := s.open(img0, "sweep")
 		n.connect(s, s.lastState)
 		crashed, pts, label := s.withCrash(n, k, func() { s.perform(n, kind, op, false) })
 		if !crashed {
@@ -1270,42 +1481,55 @@ func (s *sim) sweep(kind string, op simcore.Op) {
 		}
 		snapC := s.app.Snapshot()
 		mC := s.mark() // doBlock may have fixed the decided block
-		ub, us := n.bdb.Unsynced(), n.sdb.Unsynced()
-		type kp struct{ b, s int }
+		ub, us, ue := n.bdb.Unsynced(), n.sdb.Unsynced(), n.edb.Unsynced()
+		type kp struct{ b, s, e int }
 		var keeps []kp
+		seen := map[kp]bool{}
+		add := func(c kp) {
+			if !seen[c] {
+				seen[c] = true
+				keeps = append(keeps, c)
+			}
+		}
+		full := kp{ub, us, ue}
+		add(kp{0, 0, 0})
+		add(full)
+		// each database alone at none / all while the others keep everything / nothing
+		add(kp{0, us, ue})
+		add(kp{ub, 0, ue})
+		add(kp{ub, us, 0})
+		add(kp{ub, 0, 0})
+		add(kp{0, us, 0})
+		add(kp{0, 0, ue})
 		if all {
-			for b := 0; b <= ub; b++ {
-				keeps = append(keeps, kp{b, us})
-				if us > 0 {
-					keeps = append(keeps, kp{b, 0})
-				}
+			for x := 1; x < ub; x++ {
+				add(kp{x, us, ue})
+				add(kp{x, 0, 0})
 			}
 			for x := 1; x < us; x++ {
-				keeps = append(keeps, kp{ub, x})
-				if ub > 0 {
-					keeps = append(keeps, kp{0, x})
-				}
+				add(kp{ub, x, ue})
+				add(kp{0, x, 0})
+			}
+			for x := 1; x < ue; x++ {
+				add(kp{ub, us, x})
+				add(kp{0, 0, x})
 			}
 		} else {
-			keeps = append(keeps, kp{0, 0})
-			if ub > 0 || us > 0 {
-				keeps = append(keeps, kp{ub, us})
-			}
-			if ub > 0 && us > 0 {
-				keeps = append(keeps, kp{ub, 0}, kp{0, us})
-			}
 			if ub > 1 {
-				keeps = append(keeps, kp{(k*7 + 1) % ub, us})
+				add(kp{(k*7 + 1) % ub, us, ue})
 			}
 			if us > 1 {
-				keeps = append(keeps, kp{ub, (k*7 + 1) % us})
+				add(kp{ub, (k*7 + 1) % us, ue})
+			}
+			if ue > 1 {
+				add(kp{ub, us, (k*7 + 1) % ue})
 			}
 		}
 		for _, c := range keeps {
 			s.app.Restore(snapC)
 			s.app.Crash()
-			ctx := fmt.Sprintf("sweep: crash in %s at point %d (%s), kept %d/%d block-db and %d/%d state-db unsynced write groups", kind, k, label, c.b, ub, c.s, us)
-			n2 := s.open(n.bdb.Image(c.b), n.sdb.Image(c.s), ctx)
+			ctx := fmt.Sprintf("sweep: crash in %s at point %d (%s), kept %d/%d block-db, %d/%d state-db and %d/%d evidence-db unsynced write groups", kind, k, label, c.b, ub, c.s, us, c.e, ue)
+			n2 := s.open(n.image(c.b, c.s, c.e), ctx)
 			s.boot(n2, ctx)
 			n2.stop()
 			s.rewind(mC)
@@ -1465,7 +1689,7 @@ func (s *sim) labFair(n int) {
 
 func (s *sim) Finish() {
 	// clean restart at the end: everything saved is there
-	s.restart(s.live.bdb.Image(-1), s.live.sdb.Image(-1), "final restart")
+	s.restart(s.live.image(-1, -1, -1), "final restart")
 	if s.env.Checking("C08") {
 		s.labFair(20)
 	}
